@@ -439,6 +439,15 @@ Section WildLib.
 
   Definition quiet (e : event) : Prop := estep e = SIrr \/ estep e = SStalled.
 
+  (* the LIB reference is the configured one, or its id is the id of a block of the universe *)
+  Definition LibU (s : fstate) : Prop :=
+    libref (db s) = r0 \/ exists bl, In bl U /\ bid bl = ri (libref (db s)).
+
+  (* a weak coherence of the configured LIB: its id is the id of a block of the universe, or its children
+     are higher than its number *)
+  Definition coh0 : Prop :=
+    (exists bl, In bl U /\ bid bl = ri r0) \/ (forall x, In x U -> bparent x = ri r0 -> rn r0 < bnum x).
+
   Definition LibHalf (s3 : fstate) (Fin : list block) (S3 : cstack) (b : block) (evs : list event)
              (res : fstate * list event * result) : Prop :=
     exists s' evQ Fnew,
@@ -450,13 +459,17 @@ Section WildLib.
                  In (bid x) (keys (store (db s'))) \/ bnum x < rn (libref (db s'))) /\
       (forall k, In k (keys (store (db s'))) -> In k (keys (store (db s3)))) /\
       (* when every block lies above the first streamable block the LIB number does not decrease *)
-      ((forall x, In x U -> first < bnum x) -> rn (libref (db s3)) <= rn (libref (db s'))).
+      ((forall x, In x U -> first < bnum x) -> rn (libref (db s3)) <= rn (libref (db s'))) /\
+      (* the same when no block lies UNDER the first streamable block and the configured LIB is weakly coherent *)
+      (LibU s3 -> LibU s' /\
+         ((forall x, In x U -> first <= bnum x) -> coh0 -> rn (libref (db s3)) <= rn (libref (db s')))).
 
   Lemma lib_half_stay s3 Fin S3 b evs : Inv s3 Fin S3 -> last_sent s3 = Some b ->
     LibHalf s3 Fin S3 b evs (s3, evs, ROk).
   Proof.
     intros HI Hls. exists s3, [], []. rewrite !app_nil_r. split; [reflexivity|].
-    split; [exact HI|]. split; [exact Hls|]. split; [constructor|]. split; [auto|]. split; [auto|]. intros _. lia.
+    split; [exact HI|]. split; [exact Hls|]. split; [constructor|]. split; [auto|]. split; [auto|].
+    split; [intros _; lia|]. intros HL. split; [exact HL|]. intros _ _. lia.
   Qed.
 
   Lemma dbinv_purge d libr kept q x B :
@@ -581,7 +594,7 @@ Section WildLib.
     assert (Hdb : db s6 = d') by (rewrite Hdb6, Hdb5; reflexivity).
     assert (Hlast : last_sent s6 = Some b) by (rewrite Hls6, Hls5; exact Hls).
     exists s6, (ev5 ++ ev6), (map eb q). split; [reflexivity|].
-    split; [|split; [exact Hlast|split; [|split]]].
+    split; [|split; [exact Hlast|split; [|split; [|split; [|split]]]]].
     - (* the invariant *)
       constructor; rewrite ?Hdb.
       + exact Hd'.
@@ -599,8 +612,8 @@ Section WildLib.
       + right. apply N.leb_gt in Fe.
         assert (Ex : eb e = x) by (apply U_uniq; [apply HU; exact He | exact Hx | exact Hk]).
         rewrite <- Ex. lia.
-    - split; [intros k Hk; rewrite Hdb, Hst' in Hk; eapply in_filter_keys; exact Hk|].
-      intros Hfirst. rewrite Hdb, Hl'.
+    - intros k Hk. rewrite Hdb, Hst' in Hk. eapply in_filter_keys. exact Hk.
+    - intros Hfirst. rewrite Hdb, Hl'.
       pose proof (rs_first_guard _ _ _ _ _ _ _ Hrs) as G.
       destruct (chain_top_stored _ _ _ _ Hq Hqne) as (e' & Fe' & _).
       destruct (bic_num_spec _ _ _ _ Hbic) as [-> | [Z | [(e1 & Fe1 & En)|[(y & pn & Hy & Hlt)|Hnone]]]].
@@ -609,6 +622,39 @@ Section WildLib.
       + pose proof (Hfirst (eb e1) (HU e1 (proj1 (find_some _ _ _ Fe1)))). lia.
       + unfold num_of in Hy. destruct (find y (store (db s3))) as [ey|] eqn:Fy.
         * injection Hy as <-. pose proof (Hfirst (eb ey) (HU ey (proj1 (find_some _ _ _ Fy)))). lia.
+        * destruct Hextra as [Hx|Hx]; rewrite Hx in Hy; [discriminate|].
+          destruct (ri (libref (db s3)) =? y); [|discriminate]. injection Hy as <-. lia.
+      + congruence.
+    - (* no block under the first streamable block, weakly coherent configured LIB *)
+      intros HLU.
+      destruct q as [|a A _] using rev_ind; [congruence|].
+      destruct (chain_top _ _ _ _ _ Hq) as [Fa Hka].
+      pose proof (find_some _ _ _ Fa) as [Hain _].
+      split.
+      { right. exists (eb a). split; [apply HU; exact Hain|]. rewrite Hdb, Hl'. exact Hka. }
+      intros Hle Hcoh. rewrite Hdb, Hl'.
+      pose proof (rs_first_guard _ _ _ _ _ _ _ Hrs) as G.
+      (* when the number of the new reference is the height of its block *)
+      assert (Hkey : rn libr = bnum (eb a) -> rn (libref (db s3)) <= rn libr).
+      { intros En. destruct (N.lt_ge_cases first (bnum (eb a))) as [Hgt|Hge]; [lia|].
+        pose proof (Hle (eb a) (HU a Hain)) as Hle_a.
+        destruct (chain_snoc_inv _ _ _ _ _ Hq) as (_ & _ & HcA).
+        destruct A as [|a' A' _] using rev_ind.
+        - apply chain_nil_inv in HcA.
+          assert (Hno : forall bl, In bl U -> bid bl = bparent (eb a) -> False).
+          { intros bl Hbl Ebl. pose proof (U_up (eb a) bl (HU a Hain) Hbl (eq_sym Ebl)). pose proof (Hle bl Hbl). lia. }
+          destruct HLU as [HL0|(bl & Hbl & Ebl)]; [|exfalso; apply (Hno bl Hbl); congruence].
+          destruct Hcoh as [(bl & Hbl & Ebl)|Hup]; [exfalso; apply (Hno bl Hbl); rewrite Ebl, <- HL0; symmetry; exact HcA|].
+          rewrite HL0 in HcA |- *. pose proof (Hup (eb a) (HU a Hain) HcA). lia.
+        - exfalso. destruct (chain_top _ _ _ _ _ HcA) as [Fa' _].
+          pose proof (ws_up _ Hwf a a' Hain Fa'). pose proof (Hle (eb a') (HU a' (proj1 (find_some _ _ _ Fa')))). lia. }
+      destruct (bic_num_spec _ _ _ _ Hbic) as [Estart | [Z | [(e1 & Fe1 & En)|[(y & pn & Hy & Hlt)|Hnone]]]].
+      + apply Hkey. rewrite Estart in Fa |- *. cbn [bref ri rn] in *.
+        rewrite (stored_is_self U U_uniq _ _ _ HU Hb Fa). reflexivity.
+      + contradiction.
+      + apply Hkey. rewrite Fa in Fe1. injection Fe1 as <-. exact En.
+      + unfold num_of in Hy. destruct (find y (store (db s3))) as [ey|] eqn:Fy.
+        * injection Hy as <-. pose proof (Hle (eb ey) (HU ey (proj1 (find_some _ _ _ Fy)))). lia.
         * destruct Hextra as [Hx|Hx]; rewrite Hx in Hy; [discriminate|].
           destruct (ri (libref (db s3)) =? y); [|discriminate]. injection Hy as <-. lia.
       + congruence.
@@ -635,7 +681,9 @@ Section WildLib.
       (last_sent s = None ->
        match evA ++ evQ with e0 :: _ => ri (elib e0) = ri r0 | [] => last_sent s' = None end) /\
       (* when every block lies above the first streamable block the LIB number does not decrease *)
-      ((forall x, In x U -> first < bnum x) -> rn (libref (db s)) <= rn (libref (db s'))).
+      ((forall x, In x U -> first < bnum x) -> rn (libref (db s)) <= rn (libref (db s'))) /\
+      (LibU s -> LibU s' /\
+         ((forall x, In x U -> first <= bnum x) -> coh0 -> rn (libref (db s)) <= rn (libref (db s')))).
 
   Lemma stepout_quiet s Fin S b s' : Inv s' Fin S ->
     (known s b -> s' = s) -> (forall x, In x U -> known s x -> known s' x) -> known s' b ->
@@ -645,7 +693,8 @@ Section WildLib.
     intros HI Hk1 Hk2 Hk3 Hls Hlr. exists s', [], [], Fin, S.
     split; [reflexivity|]. split; [reflexivity|]. split; [exact HI|].
     split; [constructor|]. split; [intros H; auto|]. split; [intros _; exact Hk2|]. split; [exact Hk3|].
-    split; [intros H; cbn [app]; congruence|]. intros _. rewrite Hlr. lia.
+    split; [intros H; cbn [app]; congruence|]. split; [intros _; rewrite Hlr; lia|].
+    unfold LibU. rewrite Hlr. intros HL. split; [exact HL|]. intros _ _. lia.
   Qed.
 
   (* assembling a triggering step from its two halves *)
@@ -659,7 +708,7 @@ Section WildLib.
   Proof.
     intros Hb Hk Hdr Happ HI3 Hk3 Hls3 Hl3 Hne Hnsd Hevs Hel.
     destruct (lib_half s3 Fin S3 b evs HI3 Hls3 Hb Hne Hnsd)
-      as (s' & evQ & Fnew & -> & HI' & Hls' & HsQ & Hkeys & _ & Hmn).
+      as (s' & evQ & Fnew & -> & HI' & Hls' & HsQ & Hkeys & _ & Hmn & Hmn2).
     exists s', evs, evQ, (Fin ++ Fnew), S3.
     split; [reflexivity|]. split; [exact Happ|]. split; [exact HI'|]. split; [exact HsQ|].
     assert (Hdrop : forall x, bnum x < rn (libref (db s')) -> dropped s' x = true).
@@ -676,7 +725,8 @@ Section WildLib.
       split.
       + intros Hn. destruct evs as [|e0 evs']; [congruence|]. cbn [app].
         exact (Forall_inv (Hel Hn)).
-      + intros Hfirst. rewrite <- Hl3. exact (Hmn Hfirst).
+      + split; [intros Hfirst; rewrite <- Hl3; exact (Hmn Hfirst)|].
+        unfold LibU in *. rewrite <- Hl3. exact Hmn2.
   Qed.
 
   (* a block that is already stored: nothing happens (a stored root is stored again, unchanged) *)
@@ -740,7 +790,8 @@ Section WildLib.
       + unfold dropped in H. rewrite Els, andb_false_r in H. discriminate.
     - split; [left; rewrite Hdbs2; cbn [new_db store]; rewrite keys_snoc; apply in_or_app; right; left; reflexivity|].
       split; [intros _; cbn [app ev elib]; exact Hcur|].
-      intros _. rewrite Hdbs2. cbn [new_db libref]. lia.
+      split; [intros _; rewrite Hdbs2; cbn [new_db libref]; lia|].
+      unfold LibU. rewrite Hdbs2. cbn [new_db libref]. intros HL. split; [exact HL|]. intros _ _. lia.
   Qed.
 
   Lemma step_inv s Fin S b : Inv s Fin S -> In b U -> StepOut s Fin S b (fk_step cfg s b).
@@ -858,18 +909,19 @@ Section WildLib.
     (exists S', apply_all (ri r0) S (all_events t) = Some S') /\
     (lib_mono_b cfg s h = true -> c01_refeed_b seen h t = true) /\
     first_lib s t /\
-    ((forall x, In x U -> first < bnum x) -> lib_mono_b cfg s h = true).
+    ((forall x, In x U -> first < bnum x) -> lib_mono_b cfg s h = true) /\
+    (LibU s -> (forall x, In x U -> first <= bnum x) -> coh0 -> lib_mono_b cfg s h = true).
   Proof.
     induction h as [|b h IH]; intros s Fin S seen HI Hh Hseen.
     - cbn. repeat split; [constructor | exists S; reflexivity].
     - destruct (step_inv s Fin S b HI (Hh b (or_introl eq_refl))) as
-        (s' & evA & evQ & Fin' & S' & Hstep & Happ & HI' & HsQ & Hk1 & Hk2 & Hk3 & Hfl & Hmn).
+        (s' & evA & evQ & Fin' & S' & Hstep & Happ & HI' & HsQ & Hk1 & Hk2 & Hk3 & Hfl & Hmn & Hmm).
       cbn [fk_run lib_mono_b]. rewrite Hstep.
       assert (Happ' : apply_all (ri r0) S (evA ++ evQ) = Some S').
       { rewrite (apply_all_app _ _ _ _ _ Happ). apply apply_all_inert. exact HsQ. }
       assert (Hh' : forall x, In x h -> In x U) by (intros x Hx; apply Hh; right; exact Hx).
-      destruct (IH s' Fin' S' [] HI' Hh' (fun x (Hx : In x []) => match Hx with end)) as (Hlen & Hok & (S2 & Happ2) & _ & Hfl2 & Hmn2).
-      cbn zeta in *. split; [|split; [|split; [|split; [|split]]]].
+      destruct (IH s' Fin' S' [] HI' Hh' (fun x (Hx : In x []) => match Hx with end)) as (Hlen & Hok & (S2 & Happ2) & _ & Hfl2 & Hmn2 & Hmm2).
+      cbn zeta in *. split; [|split; [|split; [|split; [|split; [|split]]]]].
       + cbn [length]. rewrite Hlen. reflexivity.
       + constructor; [reflexivity | exact Hok].
       + exists S2. unfold all_events. cbn [map concat fst]. fold (all_events (fk_run cfg s' h)).
@@ -879,7 +931,7 @@ Section WildLib.
         { intros x [<-|Hx].
           - split; [apply Hh; left; reflexivity | exact Hk3].
           - destruct (Hseen x Hx) as [HxU Hkx]. split; [exact HxU | apply (Hk2 Hm1); assumption]. }
-        destruct (IH s' Fin' S' (b :: seen) HI' Hh' Hseen') as (_ & _ & _ & Hre & _ & _).
+        destruct (IH s' Fin' S' (b :: seen) HI' Hh' Hseen') as (_ & _ & _ & Hre & _ & _ & _).
         cbn [c01_refeed_b]. rewrite (Hre Hm2), andb_true_r.
         destruct (existsb (block_eqb b) seen) eqn:Hex; [|reflexivity].
         apply existsb_exists in Hex as (x & Hx & Heq). apply block_eqb_eq in Heq. subst x.
@@ -887,6 +939,8 @@ Section WildLib.
       + intros Hn. specialize (Hfl Hn). unfold all_events. cbn [map concat fst]. fold (all_events (fk_run cfg s' h)).
         destruct (evA ++ evQ) as [|e0 rest]; cbn [app]; [exact (Hfl2 Hfl) | exact Hfl].
       + intros Hfirst. rewrite (Hmn2 Hfirst), andb_true_r. apply N.leb_le. exact (Hmn Hfirst).
+      + intros HL Hle Hcoh. destruct (Hmm HL) as [HL' Hm']. rewrite (Hmm2 HL' Hle Hcoh), andb_true_r.
+        apply N.leb_le. exact (Hm' Hle Hcoh).
   Qed.
 
   Theorem wild_lib_run m h : rooted m -> (forall b, In b h -> In b U) ->
@@ -896,14 +950,16 @@ Section WildLib.
     c01_discipline_b m t = true /\
     c01_error_b (c_fail_at cfg) 0 t = true /\
     (lib_mono_b cfg (fs_init m) h = true -> c01_refeed_b [] h t = true) /\
-    ((forall x, In x U -> first < bnum x) -> lib_mono_b cfg (fs_init m) h = true).
+    ((forall x, In x U -> first < bnum x) -> lib_mono_b cfg (fs_init m) h = true) /\
+    ((forall x, In x U -> first <= bnum x) -> coh0 -> lib_mono_b cfg (fs_init m) h = true).
   Proof.
-    intros Hm Hh. destruct (run_wild h (fs_init m) [] [] [] (inv_init m Hm) Hh) as (Hlen & Hok & (S' & Happ) & Hre & _ & Hmn).
+    intros Hm Hh. destruct (run_wild h (fs_init m) [] [] [] (inv_init m Hm) Hh) as (Hlen & Hok & (S' & Happ) & Hre & _ & Hmn & Hmm).
     { intros x []. }
-    cbn zeta. repeat split; try assumption.
+    cbn zeta. split; [|split; [|split; [|split; [|split; [|split; [|split]]]]]]; try assumption.
     - exists S'. exact Happ.
     - unfold c01_discipline_b. replace (root_lib m (fk_run cfg (fs_init m) h)) with (ri r0) by (destruct Hm as [-> | ->]; reflexivity).
       rewrite Happ. reflexivity.
     - rewrite Hnofail. apply error_ok. exact Hok.
+    - apply Hmm. left. destruct Hm as [-> | ->]; reflexivity.
   Qed.
 End WildLib.
